@@ -62,6 +62,7 @@ type vfScenario struct {
 	Post     bool                   `json:"post"` // stateful graphs: also install state post-handlers
 	HMod     bool                   `json:"hmod"` // state handlers modify the value they pass on (pre adds key "pre", post adds key "q<node>")
 	SMod     int                    `json:"smod"` // k > 0: the k-th resume call passes a state modifier that adds 100 to the counter
+	PState   bool                   `json:"pstate"` // (nested scenario without state of its own) its node bodies use the state inherited from the parent graph
 	SHand    bool                   `json:"shand"`  // state handlers installed in their stream form (WithStreamStatePre/PostHandler)
 	Lower    string                 `json:"lower"`  // "chain": build with compose.Chain from Stages; Edges/Branches hold the lowered graph the rule judges by
 	Stages   []vfStage              `json:"stages"`
@@ -344,6 +345,13 @@ func (r *vfRun) nodeLambda(prefix string, sc *vfScenario, name string) *Lambda {
 				return nil, fmt.Errorf("verif harness: state unavailable in node %s: %w", path, err)
 			}
 		} else {
+			if sc.PState && prefix != "" {
+				// the nested graph declares no state: ProcessState reaches the parent's state object (one more critical section on it)
+				_ = ProcessState[*vfState](ctx, func(_ context.Context, st *vfState) error {
+					r.cs(rc.rec, st, "", "body", name)
+					return nil
+				})
+			}
 			rc.rec.log(map[string]any{"ev": ev, "p": prefix, "n": name, "i": in})
 		}
 		if abort {
